@@ -120,8 +120,46 @@ structure Cfg where
 inductive CollOp where
   | accEmpty                  -- `acc := m.Empty()`
   | foldRecvPar (ch : Nat)    -- `for i := 1; i <= par; i++ { acc = m.Combine(acc, <-ch) }`
+  | foldRange (ch : Nat)      -- `for v := range ch { acc = m.Combine(acc, v) }`
   | sendAcc (ch : Nat)        -- `ch <- acc`
   | close (ch : Nat)          -- `close(ch)`
   deriving DecidableEq, Repr
+
+/-- The collector runs alone: after `wg.Wait()` every worker has exited, so `vals` (channel `valsCh`) holds what the
+workers left there and nobody else touches it; `done` (channel `doneCh`, capacity 1) is read by the caller only. -/
+structure CollSt (α : Type) where
+  acc : Option α := none
+  vals : List α
+  valsClosed : Bool := false
+  out : List α := []
+  doneClosed : Bool := false
+
+/-- One statement of the collector as a partial function: `none` = the statement would block forever, panic (close of a
+closed channel, send on a closed channel), use `acc` before it is declared, or leave the modelled behaviour (a receive
+from the closed and empty `vals` yields zero values). -/
+def CollOp.run {α : Type} (c : α → α → α) (e : α) (par valsCh doneCh : Nat) : CollOp → CollSt α → Option (CollSt α)
+  | .accEmpty, s => some { s with acc := some e }
+  | .foldRecvPar ch, s =>
+    if ch = valsCh ∧ par ≤ s.vals.length then
+      s.acc.map fun a => { s with acc := some ((s.vals.take par).foldl c a), vals := s.vals.drop par }
+    else none
+  | .foldRange ch, s =>
+    if ch = valsCh ∧ s.valsClosed = true then s.acc.map fun a => { s with acc := some (s.vals.foldl c a), vals := [] }
+    else none
+  | .sendAcc ch, s =>
+    if ch = doneCh ∧ s.doneClosed = false ∧ s.out.length < 1 then s.acc.map fun a => { s with out := s.out ++ [a] }
+    else none
+  | .close ch, s =>
+    if ch = valsCh then (if s.valsClosed then none else some { s with valsClosed := true })
+    else if ch = doneCh then (if s.doneClosed then none else some { s with doneClosed := true })
+    else none
+
+def collRun {α : Type} (c : α → α → α) (e : α) (par valsCh doneCh : Nat) : List CollOp → CollSt α → Option (CollSt α)
+  | [], s => some s
+  | op :: ops, s => (op.run c e par valsCh doneCh s).bind (collRun c e par valsCh doneCh ops)
+
+/-- what the rest of the program can see of a finished collector: the values sent on `done`, whether `done` and `vals`
+are closed, what is left in `vals` -/
+def CollSt.obs {α : Type} (s : CollSt α) : List α × Bool × Bool × List α := (s.out, s.doneClosed, s.valsClosed, s.vals)
 
 end Golem.Model.DSL
